@@ -273,7 +273,7 @@ def rule_atl1(A: Analysis, rep):
         if val not in ("True", "False"):
             rep.bad("ATL1", "at-least decision", n.ast, "should_run returns `%s` (unrecognised)" % val)
             return
-        for c in A.path_guards(g, g.entry, n, fi):
+        for c in A.path_guards(g, g.entry, n, fi, xstop=[]):
             pairs.append((c, val == "True"))
     anc_atoms = [a for c, _ in pairs for a, _p in c if "is_ancestor(" in a]
     var_of = {"none(%s)" % mrv: "none", "none(%s)" % alc: "noflag", "none(%s.commit_hash)" % mrv: "nullcommit",
@@ -299,12 +299,15 @@ def rule_atl1(A: Analysis, rep):
               "run iff no version ∨ (flag ∧ (null commit ∨ (≠ commit ∧ version is a strict ancestor))) — compared on %d assignments" % n_asg, mism or "")
     # ensure precedes, memo invalidated on the re-run path
     ens = [n for n in g.nodes if n.kind == "stmt" and A.calls_in(n.ast, "RunExperiment._ensure_most_relevant_existing_version_computed")]
-    rep.check(bool(ens) and all(g.all_paths_pass(g.entry, r, ens, skip_labels=skip) for r in rets), "ATL1", "selection computed first", fi.node, "",
-              "should_run decides before the most relevant version was computed")
+    # … including every local copy of the selected version that the decision reads
+    aliases = [n for n in g.nodes if n.kind == "stmt" and isinstance(n.ast, (ast.Assign, ast.AnnAssign)) and n.ast.value is not None and mrv in norm(n.ast.value)
+               and not norm(n.ast.targets[0] if isinstance(n.ast, ast.Assign) else n.ast.target).startswith("self.")]
+    rep.check(bool(ens) and all(g.all_paths_pass(g.entry, r, ens, skip_labels=skip) for r in rets + aliases), "ATL1", "selection computed first", fi.node, "",
+              "should_run decides (or copies the selected version) before the most relevant version was computed")
     inval = [n for n in g.nodes if n.kind == "stmt" and norm(n.ast) == "self._did_retrieve_version = False"]
     ok = False
     if inval:
-        gs = A.path_guards(g, g.entry, inval[0], fi)
+        gs = A.path_guards(g, g.entry, inval[0], fi, xstop=[])
         ok = all(any("is_ancestor(" in a and p for a, p in c) for c in gs) and bool(gs)
     rep.check(ok, "ATL1", "memo invalidated when re-running for --at-least", fi.node, "", "the stale selection is not invalidated on the re-run path")
 
